@@ -71,6 +71,26 @@ def parse_ts(s: Any) -> Optional[float]:
         return None
 
 
+def _param_equal(recorded: Any, actual: Any, approx: bool) -> bool:
+    """SER parameter values are JSON-safe: a data object is recorded as its (truncated) repr."""
+    def has_data(v):
+        if isinstance(v, dict):
+            return (set(v) <= {"t", "v"} and "t" in v) or any(has_data(x) for x in v.values())
+        return isinstance(v, list) and any(has_data(x) for x in v)
+
+    if has_data(actual):
+        if isinstance(actual, dict) and set(actual) <= {"t", "v"}:
+            want = M.render(actual)
+            return isinstance(recorded, str) and (recorded == want or (recorded.endswith("…") and want.startswith(recorded[:-1])) or
+                                                  (approx and observe._str_close(recorded, want)))
+        return isinstance(recorded, str)  # a container holding data objects is not JSON serialisable: recorded as some repr
+    if approx and isinstance(recorded, str) and not isinstance(actual, str):
+        # numpy scalars (np.float64 / np.bool_) inside the value are not JSON serialisable: the value is recorded as its repr
+        norm = recorded.replace("np.True_", "True").replace("np.False_", "False")
+        return observe._str_close(norm, repr(actual))
+    return observe.equal(observe.norm_value(recorded), actual, approx)
+
+
 def _changed(a: Any, b: Any) -> Optional[bool]:
     """True changed / False unchanged / None either verdict acceptable (equal but not bit-identical)."""
     if observe.equal(a, b):
@@ -160,7 +180,7 @@ def _judge(case, run_case, detail, m, ref, r1, r2, t0, t1, col) -> None:
                 shape = want_src + ("+has_default" if dflt != M.NODEF and want_src != "default" else "")
                 if name not in params:
                     bad("parameter_missing", {"source": shape, "node": nk.split(":")[0]}, sorted(params), name)
-                elif not observe.equal(observe.norm_value(params[name]), p["value"], m["approx"]):
+                elif not _param_equal(params[name], p["value"], m["approx"]):
                     bad("parameter_value", {"source": shape, "node": nk.split(":")[0]}, params[name], p["value"])
                 if sources.get(name) != want_src and name in params:
                     bad("parameter_source", {"reported": str(sources.get(name)), "actual": shape, "node": nk.split(":")[0]},
@@ -176,7 +196,7 @@ def _judge(case, run_case, detail, m, ref, r1, r2, t0, t1, col) -> None:
             bad("check_required_keys_present", {"node": nk, "want": want}, prec.get("required_keys_present"), {"required": required, "pre": sorted(pre)})
         if desc["kind"] != "ctx" and entry is not None:
             have = M.kind_of(entry["in"])
-            want = "PASS" if have == desc["inp"] else "FAIL"
+            want = "PASS" if (have == desc["inp"] or (desc["inp"] == "Any" and have != "None")) else "FAIL"
             got = prec.get("input_type_ok", {}).get("result")
             if got != want:
                 bad("check_input_type_ok", {"node": nk, "want": want}, prec.get("input_type_ok"), {"have": have, "declared": desc["inp"]})
